@@ -378,6 +378,58 @@ void vf_harness(void) {
 )
 UNITS += [nocase_whole]
 
+# ---- toUpperCase / toLowerCase as wholes, with the per-code-point loop abstracted to "w bytes were written, w <= length" (its steps are units to*Case_step):
+# the result is NUL-terminated where the written bytes end AND its length() is that offset - case mapping may write fewer bytes than the input has
+def enum_loop_rule(text):
+    """the whole `for (Enumerator e = all(); e; ++e) { ... }` statement (brace-matched) -> `p += VF_LOOP_WROTE(p);`"""
+    import re
+    from vf.core import find_code, match_close
+    m = re.search(r'for \(Enumerator e = all\(\); e; \+\+e\)', text)
+    if not m:
+        return text, 0
+    b = find_code(text, '{', m.end())
+    if text[m.end():b].strip():
+        return text, 0
+    e = match_close(text, b)
+    return text[:m.start()] + 'p += VF_LOOP_WROTE(p);' + text[e + 1:], 1
+def case_frame(name, fn):
+    return Unit(
+        name, 'C08',
+        cuts=string_helper_cuts() + [Cut('body', S, r'^String String::%s\(\) const\s*$' % fn, members=STRING_FIELDS, methods=STRING_METHODS,
+              rules=[ifdef_rule('ASL_ANSI', False), string_local_rules,
+                     enum_loop_rule, (r'int\s+u\[2\] = \{ 0, 0 \};', '', None),
+                     (r'\bs\.str\(\)', 'String_str(&s)', None), (r'\bs\.fix\(([^;]*)\);', r'String_fix(&s, \1);', None), (r'return s;', '{ g_res = s; return; }', 1)])],
+        text=r'''
+#include "vf_string.h"
+int g_k;
+''' + STRING_HELPERS_C + r'''
+static void String_fix(String* self, int n) { self->_len = n; }                    /* String.h: fix(int n) { _len = n; } */
+int g_w; String g_res;
+/* the loop: writes g_w bytes (none of them NUL) starting at p, g_w <= length of the input (units toUpperCase_step / toLowerCase_step: never more bytes than the code point had) */
+static int VF_LOOP_WROTE(char* p) { __CPROVER_assert(__CPROVER_w_ok(p, g_w + 1), "room for the mapped text and its terminator"); if (g_k < g_w) p[g_k] = 'x'; return g_w; }
+void String_case(String* self)
+__CPROVER_requires(__CPROVER_is_fresh(self, sizeof(String)) && WF_STRING_P(self) && self->_len <= NMAX && 0 <= g_w && g_w <= self->_len && 0 <= g_k && g_k < g_w)
+__CPROVER_ensures(g_res._len == g_w && STR(g_res)[g_w] == 0 && STR(g_res)[g_k] == 'x')
+__CPROVER_ensures((g_res._size == 0 && g_res._len < ASL_STR_SPACE) || g_res._size > g_res._len)
+__CPROVER_assigns(g_res)
+@@body@@
+void vf_harness(void) { String* s; String_case(s); VF_CANARY(); }
+''',
+        entry='String_case', variants={'': ['-DNMAX=100000']},
+        desc='String::%s as a whole (loop abstracted to "w <= length bytes written"): the result has length() == w with its NUL there - also when the mapped text is shorter than the input' % fn,
+        functions=['String::%s (frame)' % fn],
+        trusted=['the per-code-point loop by its step contract (units to*Case_step): writes w <= length bytes'],
+    )
+from vf.core import ifdef_rule
+lower_frame = case_frame('toLowerCase_frame', 'toLowerCase')
+upper_frame = case_frame('toUpperCase_frame', 'toUpperCase')
+UNITS += [lower_frame, upper_frame]
+
+# bounded twin of the loop-contract unit String_count: same contract, loops unwound for texts of at most 6 bytes (every sequence shape up to a 4-byte sequence plus more lead bytes).
+# (Twins of the four converters were tried and dropped: without the pointer anchors that come with the loop contracts their writes through walking pointers do not finish.)
+from vf.core import bounded_twin
+UNITS += [bounded_twin(count, 'String_count_small', ['-DNMAX=6'], 12, 'texts of at most 6 bytes; loops unwound completely')]
+
 # replay: where the trace recipe of a unit does not reproduce (or there is none) the driver's battery runs on the real library: all 1,112,064 scalar values through the
 # converters, truncated / malformed tails after 0..40 bytes in exact-size heap copies (ASan), case mapping and equalsNocase against the lower-cased forms
 _bat = replay.battery('C08/driver.cpp', ['battery'])
